@@ -946,7 +946,7 @@ func main() {
 		}
 		// 7. the composed stream: requests inside the common envelope of the stage models, on which
 		// the composed model (Pipe/Compose.v) is run from the bytes and compared
-		nc := 1500
+		nc := 1800
 		if h.Thorough() {
 			nc = 60000
 		}
